@@ -626,7 +626,43 @@ func run(c *fw.Ctx, idx int) {
 			return
 		}
 		if !quiesce(30 * time.Second) {
-			c.Violation("C01/restart/not-caught-up", "a restarted member does not reach the others' content within 30 s", statesOf(ctx, cl))
+			// The known snapshot-install defect can also be reached this way: the
+			// restarted member first restores its own snapshot and log, then (the
+			// others truncated their logs meanwhile) receives InstallSnapshot onto
+			// that non-empty state and keeps entries that were unpinned meanwhile.
+			key := "C01/restart/not-caught-up"
+			es := journalOf(cl.members[victim])
+			groups, sawOther := 0, false
+			var lastRestore int64
+			for _, e := range es {
+				if e.kind == "restore" {
+					if lastRestore == 0 || sawOther || e.at-lastRestore > int64(50*time.Millisecond) {
+						groups++
+					}
+					lastRestore, sawOther = e.at, false
+				} else {
+					sawOther = true
+				}
+			}
+			a, e1 := content(ctx, cl.members[victim])
+			b, e2 := content(ctx, cl.members[cl.leaderOr(ctx, (victim+1)%n)])
+			if groups >= 2 && e1 == nil && e2 == nil {
+				staleOnly, stale := true, 0
+				for k, v := range b {
+					if a[k] != v {
+						staleOnly = false
+					}
+				}
+				for k := range a {
+					if _, ok := b[k]; !ok {
+						stale++
+					}
+				}
+				if staleOnly && stale > 0 {
+					key = "C01/snapshot-install/stale-entries-remain"
+				}
+			}
+			c.Violation(key, "a restarted member does not reach the others' content within 30 s", statesOf(ctx, cl))
 			return
 		}
 		c.Eval("restart/caught-up/" + mix)
